@@ -22,6 +22,7 @@ func init() {
 			"X6 a fork-id part shared with sibling forks of an outer run-time dimension is resolved only through the join of the caller's part and a private copy taken on an edge that compares len(node.forks) with this fork's index. " +
 			"X3 also: every path of Fork.disabled to an 'enabled' verdict has passed the loop that examines the fork's ranges for zero length. " +
 			"X8 every creator of a fork's chunk objects (first run, re-attach) pads the chunk directory names to a width computed from the same expression. " +
+			"X9 the static fork enumeration never stores through the *ForkSourcePart it was handed (shared placeholder). " +
 			"NOT decided: one fork per element/key (run-time counts), liveness (no job skipped).",
 		Assumptions: commonAssumptions,
 	}
@@ -36,6 +37,7 @@ func runC03(c *an.Ctx) {
 	ruleX5(c)
 	ruleX6(c)
 	ruleChunkWidth(c, "X8")
+	ruleX9(c)
 }
 
 // ---------------------------------------------------------------------------
